@@ -310,6 +310,21 @@ func judgeCase(c core.Case, out []string) ([]core.Finding, caseStats) {
 						}
 					}
 				}
+			case "commit":
+				// the commit the node stored for the decided block: the real VerifyCommit must accept it and
+				// the validators flagged "commit" must hold more than two thirds of the power
+				if len(args) == 2 {
+					var pw int64
+					for idx, ch := range args[0] {
+						if ch == 'C' && idx < cfg.n {
+							pw += cfg.powers[idx]
+						}
+					}
+					if args[1] != "ok" || 3*pw <= 2*cfg.total || len(args[0]) != cfg.n {
+						add("net.stored-commit-does-not-verify",
+							fmt.Sprintf("node %d decided but the commit it stored (flags %s) is rejected by VerifyCommit / carries %d of %d for the block (op %d)", node, args[0], pw, cfg.total, i))
+					}
+				}
 			case "panic":
 				st.panics = append(st.panics, strings.Join(args, ","))
 			case "decide":
